@@ -218,3 +218,6 @@ Definition split_distribute_body (P rank n : Z) (np : nat -> Z) (x : xstate) (ck
 (** an entry (element for q0, permutation p) stored under key q returns chi q -- with the generated operator() *)
 Definition entry_denotes_src (V : Type) (vscale : Z -> V -> V) (chi : quad -> triple -> V) (p : perm4) (q0 q : quad) : Prop :=
   forall n, vscale (fst (perm_eval_src p n)) (chi q0 (snd (perm_eval_src p n))) = chi q n.
+
+(** element [e] of the store is Computed *)
+Definition computed_in (el : estore) (e : nat) : Prop := exists q, nth_error el e = Some (q, Computed).
